@@ -154,11 +154,11 @@ def fn_avg(ctx, lib, nm, b):
 def fn_sum(ctx, lib, nm, b):
     o, oks, _ = ok_terms(b, lib)
     vals = view("array", arg(0))
-    ok = len(oks) == 1
+    ok = bool(oks)
     clo_ok = False
     if ok:
         pat = Agg(V + "::Number", Each(Call("serde_json::Number::from_f64", Each(Call("std::iter::Iterator::fold", Each(("iter", vals)), Each(lambda t: t[0] == "const"), Each(lambda t: t[0] == "closure"))))))
-        ok = ms(oks[0][1], pat)
+        ok = all_ok(oks, pat)
         for c in lib.closures_of(b.deff):
             co = Origins(c, lib)
             adds = [s for bb, i, s in c.stmts() if s["k"] == "assign" and s["rv"]["k"] == "binop" and s["rv"]["op"] == "Add"]
@@ -198,7 +198,7 @@ def fn_contains(ctx, lib, nm, b):
 def _affix(ctx, lib, nm, b, op):
     o, oks, _ = ok_terms(b, lib)
     pat = Agg(V + "::Bool", Each(Call(rf"str::<impl str>::{op}$", Each(view("string", arg(0))), Each(view("string", arg(1))), regex=True)))
-    C(ctx, nm, "value", all_ok(oks, pat) and len(oks) == 1, f"Bool(args[0].{op}(args[1])) — subject first, affix second", b)
+    C(ctx, nm, "value", all_ok(oks, pat), f"Bool(args[0].{op}(args[1])) — subject first, affix second", b)
 
 
 def fn_starts_with(ctx, lib, nm, b):
@@ -213,7 +213,7 @@ def fn_join(ctx, lib, nm, b):
     o, oks, _ = ok_terms(b, lib)
     mapc = Call("std::iter::Iterator::map", Each(("iter", view("array", arg(1)))), Each(lambda t: t[0] == "closure"))
     pat = Agg(V + "::String", Each(Call(r"slice::<impl \[T\]>::join$", Each(Call("std::iter::Iterator::collect", Each(mapc))), Each(view("string", arg(0))), regex=True)))
-    ok = len(oks) == 1 and ms(oks[0][1], pat)
+    ok = all_ok(oks, pat)
     clo_ok = False
     for c in lib.closures_of(b.deff):
         co = Origins(c, lib)
@@ -254,7 +254,13 @@ def fn_reverse(ctx, lib, nm, b):
     # the payloads through the accessor or through a match on the value itself
     st = Agg(V + "::String", Each(Call("std::iter::Iterator::collect", Each(("rev", ("iter", Or_(view("string", arg(0)), ("field", arg(0), "String.0"))))))))
     arr = Agg(V + "::Array", Each(Or_(view("array", arg(0)), ("field", arg(0), "Array.0"))))
-    ok = len(oks) == 2 and sum(ms(t, st) for _, t in oks) == 1 and sum(ms(t, arr) for _, t in oks) == 1
+    ok = True
+    for k0, pat in (("String", st), ("Array", arr)):
+        try:
+            res = ok_payloads(results_by_kind(b, lib, {arg(0): k0}))
+        except Undecided:
+            res = set()
+        ok = ok and bool(res) and all(m(t, pat) for t in res)
     rv = [t for _, t in b.calls() if re.search(r"slice::<impl \[T\]>::reverse$", t["callee"])]
     C(ctx, nm, "value", ok and len(rv) == 1, "string: chars().rev() collected (code points reversed); array: a copy of the array reversed in place", b)
     ch = [t["callee"].split("::")[-1] for _, t in b.calls() if re.search(r"str::<impl str>::(chars|bytes|char_indices)$", t["callee"])]
@@ -265,7 +271,7 @@ def fn_reverse(ctx, lib, nm, b):
 def fn_keys(ctx, lib, nm, b):
     o, oks, _ = ok_terms(b, lib)
     pat = Agg(V + "::Array", Each(Call("std::iter::Iterator::collect", Each(Call("std::iter::Iterator::map", Each(("iter", view("object", arg(0)))), Each(lambda t: t[0] == "closure"))))))
-    ok = len(oks) == 1 and ms(oks[0][1], pat)
+    ok = all_ok(oks, pat)
     kc = [t for _, t in b.calls() if t["callee"].endswith("BTreeMap::<K, V, A>::keys")]
     clo_ok = False
     for c in lib.closures_of(b.deff):
@@ -280,19 +286,19 @@ def fn_values(ctx, lib, nm, b):
     pat = Agg(V + "::Array", Each(Call("std::iter::Iterator::collect", Each(("iter", view("object", arg(0)))))))
     vc = [t for _, t in b.calls() if t["callee"].endswith("BTreeMap::<K, V, A>::values")]
     bad = [t["callee"] for _, t in b.calls() if t["callee"].endswith(("::rev", "::sort", "::reverse"))]
-    C(ctx, nm, "value", len(oks) == 1 and ms(oks[0][1], pat) and len(vc) == 1 and not bad, "Array of the object's values in the map's (ascending key) order — pairwise with keys()", b)
+    C(ctx, nm, "value", all_ok(oks, pat) and len(vc) == 1 and not bad, "Array of the object's values in the map's (ascending key) order — pairwise with keys()", b)
 
 
 def fn_merge(ctx, lib, nm, b):
     o, oks, _ = ok_terms(b, lib)
     ext = [t for _, t in b.calls() if t["callee"] == "std::iter::Extend::extend"]
     nx = [t for _, t in b.calls() if t["callee"] == "std::iter::Iterator::next"]
-    ok = len(ext) == 1 and len(nx) == 1 and len(oks) == 1
+    ok = len(ext) == 1 and len(nx) == 1 and bool(oks)
     if ok:
         dest = o.of_operand(ext[0]["args"][0])
         src = o.of_operand(ext[0]["args"][1])
         ok = ms(dest, Call(r"BTreeMap::<K, V>::new$", regex=True)) and ms(src, view("object", ("elem", ARGS))) and \
-            ms(o.of_operand(nx[0]["args"][0]), ("iter", ARGS)) and ms(oks[0][1], Agg(V + "::Object", Each(Call(r"BTreeMap::<K, V>::new$", regex=True))))
+            ms(o.of_operand(nx[0]["args"][0]), ("iter", ARGS)) and all_ok(oks, Agg(V + "::Object", Each(Call(r"BTreeMap::<K, V>::new$", regex=True))))
         # unconditional per argument
         cyc = cfg_cycles(b)
         ok = ok and len(cyc) == 1
@@ -304,9 +310,10 @@ def fn_map(ctx, lib, nm, b):
     as a loop with push or as an iterator chain."""
     from ..collected import ELEM, describe_vector
     o, oks, _ = ok_terms(b, lib)
-    ok = len(oks) == 1 and bool(oks[0][1]) and all(t[0] == "agg" and t[1] == V + "::Array" for t in oks[0][1])
+    allt = set().union(*[set(t) for _, t in oks]) if oks else set()
+    ok = bool(allt) and all(t[0] == "agg" and t[1] == V + "::Array" for t in allt)
     if ok:
-        for t in oks[0][1]:
+        for t in allt:
             d = describe_vector(lib, b, o, set(t[2][0]))
             ok = ok and d is not None and len(d) == 1 and ms(d[0].source, view("array", arg(1))) and d[0].every_item and \
                 ms(d[0].value, Call(INTERP, Each(ELEM), Each(view("expref", arg(0))), Each(("param", 3))))
@@ -344,37 +351,31 @@ def fn_not_null(ctx, lib, nm, b):
 def fn_to_array(ctx, lib, nm, b):
     o, oks, _ = ok_terms(b, lib)
     wrap = lambda t: t[0] == "agg" and t[1] == V + "::Array" and bool(t[2][0])
-    same = [(blk, t) for blk, t in oks if ms(t, arg(0))]
-    wr = [(blk, t) for blk, t in oks if ms(t, wrap)]
-    ok = len(same) == 1 and len(wr) == 1 and len(oks) == 2
+    ok = True
+    for k0 in ("Null", "String", "Bool", "Number", "Array", "Object"):
+        try:
+            res = ok_payloads(results_by_kind(b, lib, {arg(0): k0}))
+        except Undecided:
+            res = set()
+        ok = ok and bool(res) and (res == {arg(0)} if k0 == "Array" else all(wrap(t) for t in res))
     if ok:
         # the wrapped vector has the single element args[0]
         arrs = [s for bb, i, s in b.stmts() if s["k"] == "assign" and s["rv"]["k"] == "agg" and s["rv"]["ak"] == "array"]
         ok = len(arrs) == 1 and len(arrs[0]["rv"]["ops"]) == 1 and ms(o.of_operand(arrs[0]["rv"]["ops"][0]), arg(0))
-        br = Branches(b, o)
-        good = False
-        for sb, sw in br.switches():
-            ve = br.variant_edges(sb)
-            if ve and ve["adt"] == V and ms(ve["scrutinee"], arg(0)) and set(ve["edges"]) == {"Array"}:
-                good = edge_dominates(b, (sb, ve["edges"]["Array"]), same[0][0]) and edge_dominates(b, (sb, ve["otherwise"]), wr[0][0])
-        ok = ok and good
     C(ctx, nm, "value", ok, "an array is returned as is; anything else is wrapped in a one-element array", b)
 
 
 def fn_to_string(ctx, lib, nm, b):
     o, oks, _ = ok_terms(b, lib)
-    same = [(blk, t) for blk, t in oks if ms(t, arg(0))]
-    enc = [(blk, t) for blk, t in oks if ms(t, Agg(V + "::String", Each(arg(0))))]
     ts = [t for _, t in b.calls() if t["callee"] == "std::string::ToString::to_string"]
-    ok = len(same) == 1 and len(enc) == 1 and len(oks) == 2 and len(ts) == 1
-    if ok:
-        br = Branches(b, o)
-        good = False
-        for sb, sw in br.switches():
-            ve = br.variant_edges(sb)
-            if ve and ve["adt"] == V and ms(ve["scrutinee"], arg(0)) and set(ve["edges"]) == {"String"}:
-                good = edge_dominates(b, (sb, ve["edges"]["String"]), same[0][0]) and edge_dominates(b, (sb, ve["otherwise"]), enc[0][0])
-        ok = good
+    ok = len(ts) == 1 and o.of_operand(ts[0]["args"][0]) == {arg(0)}
+    enc = Agg(V + "::String", Each(arg(0)))
+    for k0 in ("Null", "String", "Bool", "Number", "Array", "Object"):
+        try:
+            res = ok_payloads(results_by_kind(b, lib, {arg(0): k0}))
+        except Undecided:
+            res = set()
+        ok = ok and bool(res) and (res == {arg(0)} if k0 == "String" else all(m(t, enc) for t in res))
     C(ctx, nm, "value", ok, "a string is returned as is; anything else becomes String(its JSON text via Display)", b)
     d = lib.fn("<variable::Variable as std::fmt::Display>::fmt")
     if d is not None:
@@ -385,32 +386,39 @@ def fn_to_string(ctx, lib, nm, b):
 def fn_to_number(ctx, lib, nm, b):
     o, oks, _ = ok_terms(b, lib)
     br = Branches(b, o)
-    same = [(blk, t) for blk, t in oks if ms(t, arg(0))]
-    parsed = [(blk, t) for blk, t in oks if ms(t, Call("variable::Variable::from_json", Each(("field", arg(0), "String.0"))))]
-    nul = [(blk, t) for blk, t in oks if ms(t, Agg(V + "::Null"))]
-    ok = len(same) == 1 and len(parsed) == 1 and len(nul) >= 1 and len(same) + len(parsed) + len(nul) == len(oks)
-    if ok:
-        good = False
-        for sb, sw in br.switches():
-            ve = br.variant_edges(sb)
-            if ve and ve["adt"] == V and ms(ve["scrutinee"], arg(0)) and {"Number", "String"} <= set(ve["edges"]):
-                good = edge_dominates(b, (sb, ve["edges"]["Number"]), same[0][0]) and edge_dominates(b, (sb, ve["edges"]["String"]), parsed[0][0])
-        # the parsed value is returned only under is_number(parsed)
+    pj = Call("variable::Variable::from_json", Each(Or_(("field", arg(0), "String.0"), view("string", arg(0)))))
+    nullp = Agg(V + "::Null")
+    ok = True
+    for k0 in ("Null", "String", "Bool", "Number", "Array", "Object"):
+        try:
+            res = ok_payloads(results_by_kind(b, lib, {arg(0): k0}))
+        except Undecided:
+            res = set()
+        if k0 == "Number":
+            ok = ok and res == {arg(0)}
+        elif k0 == "String":
+            ok = ok and any(m(t, pj) for t in res) and all(m(t, pj) or m(t, nullp) for t in res)
+        else:
+            ok = ok and bool(res) and all(m(t, nullp) for t in res)
+    # the parsed value is returned only under is_number(parsed)
+    parsed = [(blk, t) for blk, t in oks if any(m(x, pj) for x in t)]
+    ok = ok and bool(parsed)
+    for pblk, _ in parsed:
         guard = False
         for sb, sw in br.switches():
             be = br.bool_edges(sb)
             if be:
                 for c in br.cond(sb):
-                    if m(c, Call("variable::Variable::is_number", Each(Call("variable::Variable::from_json", ANY)))) and edge_dominates(b, (sb, be[0]), parsed[0][0]):
+                    if m(c, Call("variable::Variable::is_number", Each(Call("variable::Variable::from_json", ANY)))) and edge_dominates(b, (sb, be[0]), pblk):
                         guard = True
-        ok = good and guard
+        ok = ok and guard
     C(ctx, nm, "value", ok, "a number is returned as is; a string is parsed as JSON and kept only if it is a number; everything else is null", b)
 
 
 def fn_type(ctx, lib, nm, b):
     o, oks, _ = ok_terms(b, lib)
     pat = Agg(V + "::String", Each(Call("variable::Variable::get_type", Each(arg(0)))))
-    C(ctx, nm, "value", len(oks) == 1 and ms(oks[0][1], pat), "String(name of args[0]'s type)", b)
+    C(ctx, nm, "value", all_ok(oks, pat), "String(name of args[0]'s type)", b)
     d = lib.fn("<variable::JmespathType as std::fmt::Display>::fmt")
     if d is not None:
         # name table: each variant -> its lowercase JSON type name
